@@ -905,11 +905,23 @@ func dedupe(xs []string) []string {
 	return out
 }
 
+// caseAmbiguous: the three usual readings of "case-insensitively equal" (equal lower case,
+// equal upper case, equal under Unicode case folding) do not agree on the trimmed operands.
+// The documentation does not say which one is meant, so the reference value is not judged
+// there; negation, trichotomy and the consistency of the six operators still are.
+func caseAmbiguous(a, b string) bool {
+	a, b = strings.TrimSpace(a), strings.TrimSpace(b)
+	lower := strings.ToLower(a) == strings.ToLower(b)
+	upper := strings.ToUpper(a) == strings.ToUpper(b)
+	fold := strings.EqualFold(a, b)
+	return lower != upper || lower != fold
+}
+
 // ---- operators on constants: exhaustive over a value pool ------------------------------------------------
 
 func TestCheckOperators(t *testing.T) {
 	s := harness.NewSub("operators-exhaustive",
-		"every ordered pair from a pool of 24 constants (numbers, numeric strings incl. '1.230' and '007', text with case and surrounding blanks, empty string, 'true') under all six operators, as the query '{r: L op R}' on a one-person document: result equals the documented rule, '!=' is the negation of '=', exactly one of '<', '=', '>' holds; distinct by construction")
+		"every ordered pair from a pool of 46 constants (numbers, numeric strings incl. '1.230' and '007', text with case and surrounding blanks, empty string, 'true', and letters whose lower case, upper case and case folding disagree: final sigma, long s, dotted capital I, sharp s, Kelvin sign, a title-case digraph, plus accented and Cyrillic words) under all six operators, as the query '{r: L op R}' on a one-person document: result equals the documented rule (not judged where the readings of 'case-insensitive' disagree), '!=' is the negation of '=', exactly one of '<', '=', '>' holds, '<=' and '>=' agree with them; distinct by construction")
 	s.SetExhaustive(true)
 	if harness.Shard() != 0 {
 		return
@@ -918,7 +930,11 @@ func TestCheckOperators(t *testing.T) {
 		v   string
 		str bool
 	}{{"0", false}, {"1", false}, {"9", false}, {"10", false}, {"100", false}, {"1900", false}, {"10", true}, {"9", true}, {"1.230", true}, {"1.23", true}, {"007", true}, {"7", true},
-		{"john", true}, {"John", true}, {" JOHN ", true}, {"jane", true}, {"", true}, {"true", true}, {"z", true}, {"A", true}, {"a b", true}, {"10 apples", true}, {"1e", true}, {"Smith", true}}
+		{"john", true}, {"John", true}, {" JOHN ", true}, {"jane", true}, {"", true}, {"true", true}, {"z", true}, {"A", true}, {"a b", true}, {"10 apples", true}, {"1e", true}, {"Smith", true},
+		// letters whose lower case, upper case and case folding do not all agree (final sigma, long s,
+		// dotted capital I, sharp s, Kelvin sign, a title-case digraph) and ordinary accented letters
+		{"Σ", true}, {"σ", true}, {"ς", true}, {"ΠΑΠΑΣ", true}, {"παπας", true}, {"Weiſs", true}, {"weiss", true}, {"WEISS", true}, {"İ", true}, {"i", true}, {"I", true},
+		{"ß", true}, {"SS", true}, {"\u212a", true}, {"k", true}, {"ǅ", true}, {"ǆ", true}, {"Écrivain", true}, {"écrivain", true}, {"ÉCRIVAIN ", true}, {"Иван", true}, {"иван", true}}
 	doc, _ := gedcom.NewDocumentFromString("0 @I1@ INDI\n1 NAME A /B/\n")
 	lit := func(v string, str bool) string {
 		if str {
@@ -946,7 +962,7 @@ func TestCheckOperators(t *testing.T) {
 					continue
 				}
 				res[op] = got
-				if want := compare(op, a.v, b.v); got != want {
+				if want := compare(op, a.v, b.v); got != want && !caseAmbiguous(a.v, b.v) {
 					s.Report(c, harness.Failf("operator-result:"+op, "%q gives %v, the documented rule gives %v", query, got, want))
 				}
 			}
@@ -962,6 +978,11 @@ func TestCheckOperators(t *testing.T) {
 			}
 			if n != 1 {
 				s.Report(c, harness.Failf("trichotomy", "%q vs %q: < is %v, = is %v, > is %v", a.v, b.v, res["<"], res["="], res[">"]))
+			}
+			// whatever "case-insensitively" means for letters where lower case, upper case and
+			// case folding disagree, the six operators must use the same meaning
+			if res["<="] != (res["<"] || res["="]) || res[">="] != (res[">"] || res["="]) {
+				s.Report(c, harness.Failf("operators-inconsistent", "%q vs %q: <:%v =:%v >:%v <=:%v >=:%v", a.v, b.v, res["<"], res["="], res[">"], res["<="], res[">="]))
 			}
 			if a.v == "10" && b.v == "9" {
 				s.Sample(map[string]interface{}{"left": a, "right": b, "results": res})
